@@ -3,6 +3,7 @@ package checks
 import (
 	"bytes"
 	"fmt"
+	"io"
 	"strings"
 
 	"github.com/gregoryv/mq"
@@ -21,6 +22,7 @@ func init() {
 		Title: "Write then read returns the same packet, field for field",
 		Level: "exploration",
 		Rule: "bounded exhaustive enumeration of abstract packets of all 15 types (strata of DESIGN.md 3.0: S0 bases; S1 the complete presence lattice 2^n of optional fields; S2 every assignment deviating from the empty/full base in <=2 (quick) / <=3 (thorough) fields to any value of that field's boundary domain — lengths 0,1,2,127,128,16383,16384,65534,65535, integer extremes, both booleans, every list of length <=3 over a 3-letter alphabet with a duplicate; S3 packets whose remaining length / property length sits on each side of the 1-2-3-4 byte steps). " +
+			"S5 dense strata: every length 0..300 (thorough 0..1100 and isolated larger ones) of every string/binary field from three bases, pairs of fields over 16 lengths, every subscription identifier whose 7-bit groups come from a 9-letter alphabet, 28 filter contents x every legal option byte x placement. The bases, single-field deviations, small presence subsets and part of the dense strata are built a second time with String, Dump and WriteTo called on the half-built packet after every setter. " +
 			"Each is built through the public constructors and setters only, written with WriteTo, read back with ReadPacket, observed through every public accessor and compared field by field with the abstract packet; then written again and compared byte for byte. " +
 			"distinct_nontrivial = distinct abstract packets (by slot vector) with at least one optional field present.",
 		Assumptions: []string{
@@ -73,6 +75,41 @@ func sizeClass(p *spec.Packet) string {
 // c01Exec returns a finding, and whether the case was inside the domain and
 // constructible.
 func c01Exec(c *pcase) (*core.Finding, bool) {
+	f, in := c01ExecMode(c, false)
+	if f != nil || !in || !c01Interleave(c) {
+		return f, in
+	}
+	return c01ExecMode(c, true)
+}
+
+// c01Interleave selects the cases that are built a second time with the
+// half-built packet rendered and encoded after every setter call (a program
+// may log or measure a packet while it fills it in): the bases, every
+// single-field deviation, presence subsets of at most two fields, and a few
+// lengths of every field of the dense strata.
+func c01Interleave(c *pcase) bool {
+	switch {
+	case c.Stratum == "S0.base" || strings.HasPrefix(c.Stratum, "S2.dev1"):
+		return true
+	case strings.HasPrefix(c.Stratum, "S1."):
+		n := 0
+		for _, v := range c.Vec {
+			if v != 0 {
+				n++
+			}
+		}
+		return n <= 3
+	case c.Dense == "site":
+		return c.Args[2] == 1 || c.Args[2] == 64 || c.Args[2] == 200
+	case c.Dense == "filter":
+		return c.Args[2] == 1 && c.Args[1] < 4
+	case c.Dense == "subid":
+		return c.Args[1]%97 == 0
+	}
+	return false
+}
+
+func c01ExecMode(c *pcase, interleaved bool) (*core.Finding, bool) {
 	p := c.P
 	if p == nil || !inC01Domain(p) {
 		return nil, false
@@ -81,9 +118,25 @@ func c01Exec(c *pcase) (*core.Finding, bool) {
 	tname := bind.TypeNames[p.Type]
 	mk := func(class, what string) *core.Finding {
 		sig := map[string]string{"type": tname, "size": sizeClass(p)}
-		return &core.Finding{Class: tname + "/" + class, Sig: sig, Detail: fmt.Sprintf("%s: %s", c.describe(), what)}
+		d := c.describe()
+		if interleaved {
+			class += "/rendered-while-built"
+			d += " (String, Dump and WriteTo called on the half-built packet after every setter)"
+		}
+		return &core.Finding{Class: tname + "/" + class, Sig: sig, Detail: fmt.Sprintf("%s: %s", d, what)}
+	}
+	if interleaved {
+		bind.Between = func(h any) {
+			if hp, ok := h.(mq.Packet); ok {
+				_ = hp.String()
+				mq.Dump(io.Discard, hp)
+				hp.WriteTo(io.Discard)
+			}
+		}
+		defer func() { bind.Between = nil }()
 	}
 	q, err, res := buildGuarded(p)
+	bind.Between = nil
 	if res.Panic != "" {
 		return mk("setter-panic", res.Panic), true
 	}
